@@ -11,7 +11,8 @@ COQ = dict(imports=["Model.Render", "Spec.C08"], in_ty="c08_in", out_ty="c08_out
            inclass="inclass_C08", model="model_C08")
 THEOREMS = ["C08_plain_for_conv_rejected", "C08_eval_refuted_unbound_index_name",
             "py_repr_roundtrip", "C08_lex_tokens", "C08_all_leaves_via_repr", "C08_render_wf", "C08_tokens",
-            "C08_raw_quote_breaks", "C08_eval", "C08_decider_sound", "C08_main", "C08_eval_refuted_default_quotes",
+            "C08_raw_quote_breaks", "C08_eval", "C08_eval_closed", "C08_missing_import_rejected", "C08_fk_dotted_schema",
+            "C08_decider_sound", "C08_main", "C08_eval_refuted_default_quotes",
             "C08_eval_refuted_quote_flag", "C08_eval_refuted_drop_table_types"]
 TRUSTED = [
     "CPython's parser for the step from the token list to the call tree (ast.parse on the real text is part of the correspondence)",
@@ -29,7 +30,10 @@ ASSUME = [
 RULE = ("seeded random operation trees over 13 operation kinds x identifier classes {plain, reserved, mixed case, space, single "
         "quote, double quote, both quotes, backslash, non-ASCII, non-printable, astral, percent} x schema x naming convention x "
         "batch/non-batch; stream B (SQL comparison only, outside the modelled universe): primary-key/foreign-key/unique flags on "
-        "added columns, Identity, functional indexes, dialect options, Enum/Boolean with constraints. non-trivial = at least one "
+        "added columns, Identity, functional indexes, dialect options, Enum/Boolean with constraints, dialect types (postgresql "
+        "ARRAY/JSONB/JSON/HSTORE/UUID/BYTEA, mysql, mssql, oracle; alone and mixed) rendered under a migration context of their "
+        "dialect, foreign keys into dotted two-part schemas. The rendering comes from render._render_python_into_templatevars "
+        "(text and import lines) and is executed in a namespace holding only op, sa and what the import lines bind. non-trivial = at least one "
         "statement rendered and executed; distinct by the encoded input")
 EXHAUSTIVE = {"quick": False, "thorough": False}
 CASE_TIMEOUT = 60
@@ -40,7 +44,8 @@ TECHNIQUE = ("Coq proofs about a Gallina transcription of autogenerate/render.py
 LEVEL_TEXT = ("Machine-checked: repr-then-lex is the identity on every string for every printability oracle; the printed call tree "
               "of every renderer lexes to the intended tokens when all leaves go through repr, which holds for every renderer "
               "except table prefixes (refuted with witness); reading the rendered tree back yields the same operation objects "
-              "on the stated class (refuted outside it with witnesses). Each run compares model and real renderer structurally, "
+              "on the stated class (refuted outside it with witnesses), also when evaluated in the namespace that holds only the two "
+              "module names and the collected imports (C08_eval_closed: no free names). Each run compares model and real renderer structurally, "
               "and executes the rendered text on five dialects against direct invocation.")
 LEVEL_NOTE = ("Partial: SQLAlchemy type repr and rendered SQL expressions are opaque; token list -> call tree is CPython's parser; "
               "sqlite is skipped in batch mode (needs a live table); equal operation objects => equal SQL is observed, not proved.")
@@ -92,6 +97,15 @@ class G:
 
     def oname(self, p=.5):
         return self.name() if self.r.random() < p else None
+
+    def oschema(self, p=.4):
+        """no schema, a one-token schema, or a dotted two-part one (otherdb.dbo: database and owner)"""
+        r = self.r
+        if r.random() >= p:
+            return None
+        if r.random() < .4:
+            return r.choice(["otherdb", "db1", "main"]) + "." + r.choice(["dbo", "sch", "owner2"])
+        return self.name()
 
     def cname(self):
         x = self.r.random()
@@ -154,7 +168,7 @@ class G:
         if r.random() < .6:
             cons.append({"k": "pk", "cols": r.sample(names, r.randint(1, min(2, len(names)))), "name": self.cname()})
         if r.random() < .5:
-            k = {"k": "fk", "cols": [r.choice(names)], "reftable": "p_" + self.name(), "refschema": self.oname(.3), "refcols": [self.name()],
+            k = {"k": "fk", "cols": [r.choice(names)], "reftable": "p_" + self.name(), "refschema": self.oschema(.45), "refcols": [self.name()],
                  "name": self.cname()}
             k.update(self.fkopts())
             cons.append(k)
@@ -163,7 +177,7 @@ class G:
                          "deferrable": r.choice([None, None, True, False]), "initially": r.choice([None, None, "DEFERRED"])})
         if r.random() < .4:
             cons.append({"k": "ck", "sql": r.choice(SQLS), "name": self.cname()})
-        return {"name": self.name(), "schema": self.oname(.4), "cols": cols, "cons": cons,
+        return {"name": self.name(), "schema": self.oschema(.4), "cols": cols, "cons": cons,
                 "comment": self.text() if r.random() < .3 else None,
                 "prefixes": ([r.choice(["TEMPORARY", "TEMP'ORARY", 'say "x"', "back\\slash", "é"])] + (["UNLOGGED"] if r.random() < .3 else []))
                 if r.random() < .15 else [],
@@ -229,7 +243,7 @@ class G:
             return {"k": kind, "cols": [self.name() for _ in range(r.randint(1, 2))], "name": self.cname(),
                     "deferrable": r.choice([None, None, True, False]), "initially": r.choice([None, None, "DEFERRED"])}
         if kind == "create_fk":
-            k = {"k": kind, "cols": [self.name()], "reftable": "p_" + self.name(), "refschema": self.oname(.3), "refcols": [self.name()],
+            k = {"k": kind, "cols": [self.name()], "reftable": "p_" + self.name(), "refschema": self.oschema(.45), "refcols": [self.name()],
                  "name": self.cname()}
             k.update(self.fkopts())
             return k
@@ -270,7 +284,7 @@ def gen_case(rnd, k):
         elif x < .33:
             ops.append({"k": "drop_table", "table": no_enum(g.table()), "if_exists": rnd.choice([None, None, True, False])})
         elif x < .8:
-            ops.append({"k": "modify", "table": g.name(), "schema": g.oname(.4),
+            ops.append({"k": "modify", "table": g.name(), "schema": g.oschema(.4),
                         "ops": [g.tblop(rnd.choice(TBL_KINDS)) for _ in range(rnd.randint(0 if x < .36 else 1, 3))]})
         elif x < .93:
             ops.append({"k": "top", "table": g.name(), "schema": g.oname(.4), "op": g.tblop(rnd.choice(["create_index", "drop_index", "create_fk"]))})
@@ -285,10 +299,18 @@ def gen_single(rnd, kind, k):
     nc = (k // 6) % 3
     g = G(rnd, [0.0, 0.5, 1.0][k % 3], named=(nc == 2))
     cfg = {"op": "op", "sa": "sa", "batch": (k // 3) % 2 == 1}
-    schema = [None, "sch", g.name()][(k // 12) % 3]
+    schema = [None, "otherdb.dbo" if k % 2 else "sch", g.name()][(k // 12) % 3]
     if kind == "create_table":
         t = g.table()
         t["schema"] = schema
+        if k % 4 == 3:          # an inline foreign key to a table in a dotted two-part schema, always
+            fks = [c for c in t["cons"] if c["k"] == "fk"]
+            if not fks:
+                fk = {"k": "fk", "cols": [t["cols"][0]["name"]], "reftable": "p_" + g.name(), "refcols": [g.name()], "name": g.cname()}
+                fk.update(g.fkopts())
+                t["cons"].append(fk)
+                fks = [fk]
+            fks[0]["refschema"] = "otherdb.dbo"
         ops = [{"k": "create_table", "table": t}]
     elif kind == "drop_table":
         t = no_enum(g.table())
@@ -302,7 +324,8 @@ def gen_single(rnd, kind, k):
 FINDING_IDS = ["C08-server-default-quote-strip", "C08-quoted-name-flag-lost",
                "C08-add-column-primary-key-lost", "C08-drop-table-enum-type",
                "C08-mysql-functional-index-parens", "C08-percent-doubled-in-sql-expressions",
-               "C08-convention-applied-to-expression-only-index", "C08-fk-referred-column-key-in-direct-invoke"]
+               "C08-convention-applied-to-expression-only-index", "C08-fk-referred-column-key-in-direct-invoke",
+               "C08-dialect-type-inner-type-unqualified"]
 
 
 def registered():
@@ -351,11 +374,22 @@ def finding_cases(reg):
         out.append({"stream": "B", "cfg": cfg, "nc": False, "finding": "C08-percent-doubled-in-sql-expressions", "b": "pct_default"})
     if "C08-add-column-primary-key-lost" in reg:
         out.append({"stream": "B", "cfg": cfg, "nc": False, "finding": "C08-add-column-primary-key-lost", "b": "addcol_pk"})
+    if "C08-dialect-type-inner-type-unqualified" in reg:
+        # a PostgreSQL type that wraps another type, rendered WITHOUT a PostgreSQL migration context (render_python_code's
+        # default context, or the context of another dialect: no impl renderer), then run on PostgreSQL:
+        # postgresql.JSONB(astext_type=Text()) / postgresql.ARRAY(Integer()) -- the inner type is a free name
+        for b in ("pg_jsonb", "pg_array", "pg_hstore"):
+            out.append({"stream": "B", "cfg": cfg, "nc": False, "finding": "C08-dialect-type-inner-type-unqualified", "b": b,
+                        "names": ["t", "c", "d", "e"], "dialects": ["postgresql"], "default_render": True})
     return out
 
 
 B_KINDS = ["lit_index", "cast_index", "identity", "func_index", "pg_index_opts", "mysql_table_opts", "bool_enum_constraints", "label_index", "variant",
-           "array", "col_unique_index_flags_table", "fk_schema_nc", "drop_index_opts", "computed"]
+           "array", "col_unique_index_flags_table", "fk_schema_nc", "drop_index_opts", "computed",
+           # dialect types (rendered under a migration context of each dialect in turn, as env.py would give autogenerate):
+           # the rendered body must run in a namespace that holds only op, sa and the collected imports
+           "pg_array", "pg_jsonb", "pg_json", "pg_hstore", "pg_uuid_bytea", "pg_mixed", "pg_alter_types", "pg_add_column",
+           "mysql_types", "mssql_types", "oracle_types", "dialects_mixed", "fk_dotted_schema"]
 
 
 def generate(tier, seed):
@@ -658,6 +692,57 @@ def build_b(h):
     if b == "array":
         t = sa.Table(tn, m, sa.Column(c1, sa.ARRAY(sa.Integer)), sa.Column(c2, postgresql.ARRAY(sa.String(5))))
         return [ops.CreateTableOp.from_table(t)]
+    if b.startswith("pg_") and b not in ("pg_index_opts",) or b in ("mysql_types", "mssql_types", "oracle_types", "dialects_mixed"):
+        from sqlalchemy.dialects import mysql, mssql, oracle
+        pg = postgresql
+        if b == "pg_array":
+            cols = [pg.ARRAY(sa.Integer), pg.ARRAY(sa.String(5), dimensions=2), pg.ARRAY(pg.UUID())]
+        elif b == "pg_jsonb":
+            cols = [pg.JSONB(), pg.JSONB(astext_type=sa.Text(50))]
+        elif b == "pg_json":
+            cols = [pg.JSON(), pg.JSON(astext_type=sa.Text(50))]
+        elif b == "pg_hstore":
+            cols = [pg.HSTORE(), pg.HSTORE(text_type=sa.Text(50))]
+        elif b == "pg_uuid_bytea":
+            cols = [pg.UUID(), pg.BYTEA(), pg.INET(), pg.TIMESTAMP(timezone=True)]
+        elif b == "pg_mixed":
+            cols = [sa.Integer(), pg.ARRAY(pg.JSONB()), sa.String(10), pg.HSTORE(), pg.UUID(), pg.JSONB(), pg.BYTEA()]
+        elif b == "mysql_types":
+            cols = [mysql.TINYINT(1), mysql.MEDIUMTEXT(), mysql.INTEGER(unsigned=True), mysql.ENUM("a", "it's")]
+        elif b == "mssql_types":
+            cols = [mssql.MONEY(), mssql.NTEXT(), mssql.TINYINT()]
+        elif b == "oracle_types":
+            cols = [oracle.NUMBER(10, 2), oracle.VARCHAR2(20), oracle.RAW(16)]
+        elif b == "dialects_mixed":
+            # one table per dialect (each compiles on its own dialect only) in one operation list
+            out = []
+            for i, tys in enumerate([[pg.UUID(), pg.INET(), pg.BYTEA()], [mysql.TINYINT(1)], [mssql.MONEY()], [oracle.NUMBER(10, 2)],
+                                     [sa.Integer(), sa.String(5)]]):
+                tt = sa.Table("%s_%d" % (tn, i), m, *[sa.Column("%s_%d" % (c1, j), ty) for j, ty in enumerate(tys)])
+                out.append(ops.CreateTableOp.from_table(tt))
+            k = sum(map(ord, tn)) % len(out)
+            return out[k:] + out[:k]
+        elif b == "pg_alter_types":
+            return [ops.ModifyTableOps(tn, [
+                ops.AlterColumnOp(tn, c1, modify_type=pg.JSONB(), existing_type=pg.JSON(), existing_nullable=True),
+                ops.AlterColumnOp(tn, c2, modify_type=pg.ARRAY(sa.Integer), existing_type=sa.Text(), existing_nullable=False)])]
+        elif b == "pg_add_column":
+            t = sa.Table(tn, m, sa.Column(c1, pg.ARRAY(sa.Integer)), sa.Column(c2, pg.HSTORE()))
+            return [ops.ModifyTableOps(tn, [ops.AddColumnOp.from_column_and_tablename(None, tn, t.c[c1]),
+                                            ops.AddColumnOp.from_column_and_tablename(None, tn, t.c[c2])])]
+        else:
+            raise ValueError(b)
+        k = sum(map(ord, tn + c1)) % len(cols)          # alone (one column) and together, by the case's names
+        chosen = [cols[k]] if sum(map(ord, c2)) % 2 else cols
+        t = sa.Table(tn, m, *[sa.Column("%s_%d" % (c1, j), ty) for j, ty in enumerate(chosen)])
+        return [ops.CreateTableOp.from_table(t)]
+    if b == "fk_dotted_schema":
+        # the referred table (and the table itself) in a dotted, two-part schema: otherdb.dbo
+        sa.Table("parent", m, sa.Column("id", sa.Integer, primary_key=True), schema="otherdb.dbo")
+        t = sa.Table(tn, m, sa.Column(c1, sa.Integer), sa.Column(c2, sa.Integer, sa.ForeignKey("otherdb.dbo.parent.id", ondelete="CASCADE")),
+                     sa.ForeignKeyConstraint([c1], ["otherdb.dbo.parent.id"], name="fk_dotted"),
+                     schema="mydb.dbo" if sum(map(ord, tn)) % 2 else None)
+        return [ops.CreateTableOp.from_table(t)]
     if b == "col_unique_index_flags_table":
         t = sa.Table(tn, m, sa.Column(c1, sa.Integer, primary_key=True), sa.Column(c2, sa.Integer, unique=True),
                      sa.Column(c3, sa.Integer, index=True))
@@ -680,6 +765,14 @@ def build_b(h):
     raise ValueError(b)
 
 
+# stream B kinds with PostgreSQL types that wrap another type: under the migration context of ANOTHER dialect (no impl renderer)
+# the inner type is rendered as a free name (registered finding C08-dialect-type-inner-type-unqualified); every kind runs under
+# every context, and classify() recognises that finding by its signature (a NameError of the rendered text on non-PostgreSQL
+# contexts only -- on PostgreSQL itself the text must run)
+WRAPPING_KINDS = ("array", "pg_array", "pg_jsonb", "pg_json", "pg_hstore", "pg_mixed", "pg_alter_types", "pg_add_column")
+B_DIALECTS = {}
+
+
 # ----------------------------------------------------------------------------- one case
 OPAQUE_IN = "(mkCfg [111;112] [115;97] false false, [TOpaque])"   # outside the modelled universe: no model statement
 
@@ -693,38 +786,42 @@ def run_case(h):
     L.CURRENT_NC = int(h["nc"])
     real = build_b(h) if h["stream"] == "B" else build_ops(h)
     try:
-        code = L.render_for(real, cfg)
+        code, import_lines = L.render_with_imports(real, cfg)
     except Exception as e:       # the renderer itself raises: no valid Python was produced (class is the observable)
         out = {"code": None, "syntax_ok": False, "sql_same": False, "render_exception": type(e).__name__}
         if h["stream"] == "B":
-            return dict(cin=OPAQUE_IN, cout="(mkOut None None false)", out=out, nontrivial=False, shape="B:" + h["b"])
+            return dict(cin=OPAQUE_IN, cout="(mkOut None None false [])", out=out, nontrivial=False, shape="B:" + h["b"])
         absops = [L.canon_abs(L.a_top(o)) for o in real]
-        return dict(cin="(%s, %s)" % (L.e_cfg(cfg, h["nc"]), L.lst(absops, L.e_top)), cout="(mkOut None None false)", out=out,
+        return dict(cin="(%s, %s)" % (L.e_cfg(cfg, h["nc"]), L.lst(absops, L.e_top)), cout="(mkOut None None false [])", out=out,
                     nontrivial=False, shape="render-exception")
     try:
         compile("def f():\n" + code + "\n", "<rendered>", "exec")
         syntax_ok = True
     except SyntaxError:
         syntax_ok = False
-    out = {"code": code if len(code) < 1500 else code[:1500] + "...", "syntax_ok": syntax_ok}
+    imps = L.import_names(import_lines)
+    out = {"code": code if len(code) < 1500 else code[:1500] + "...", "syntax_ok": syntax_ok, "imports": import_lines}
     captured, same, details = (None, False, {})
     if syntax_ok:
-        captured, same, details = L.run_both(code, cfg, real, h["nc"], per_dialect_render=(h["stream"] == "B"))
+        captured, same, details = L.run_both(code, cfg, real, h["nc"], per_dialect_render=(h["stream"] == "B" and not h.get("default_render")),
+                                             imports=import_lines,
+                                             dialects=h.get("dialects") or B_DIALECTS.get(h.get("b")) or L.DIALECTS)
     out["sql_same"] = same
     if details:
         out["sql_diff"] = details
     if h["stream"] == "B":
         # outside the modelled universe: only the decider speaks
-        cout = "(mkOut %s None %s)" % ("(Some [])" if syntax_ok else "None", L.b(same))
+        cout = "(mkOut %s None %s %s)" % ("(Some [])" if syntax_ok else "None", L.b(same), L.lst(imps, L.S))
         return dict(cin=OPAQUE_IN, cout=cout, out=out, nontrivial=syntax_ok, shape="B:" + h["b"],
-                    can={"parsed": [] if syntax_ok else None, "ex": None, "same": same, "opaque": True})
+                    can={"parsed": [] if syntax_ok else None, "ex": None, "same": same, "opaque": True, "imps": imps})
     absops = [L.canon_abs(L.a_top(o)) for o in real]
     cin = "(%s, %s)" % (L.e_cfg(cfg, h["nc"]), L.lst(absops, L.e_top))
     parsed = L.parse_code(code) if syntax_ok else None
     ex = None
     if captured is not None:
         ex = L.regroup(captured, cfg)
-    cout = "(mkOut %s %s %s)" % (L.opt(parsed, lambda p: L.lst(p, L.e_stmt)), L.opt(ex, lambda e: L.lst(e, L.e_top)), L.b(same))
+    cout = "(mkOut %s %s %s %s)" % (L.opt(parsed, lambda p: L.lst(p, L.e_stmt)), L.opt(ex, lambda e: L.lst(e, L.e_top)), L.b(same),
+                                    L.lst(imps, L.S))
     kinds = set()
     for o in h["ops"]:
         if o["k"] == "modify":
@@ -735,7 +832,7 @@ def run_case(h):
     kinds = sorted(kinds)
     shape = "%s%s:%s" % ("batch" if cfg["batch"] else "plain", ["", "+nc", "+nc2"][int(h["nc"])], kinds[0] if len(kinds) == 1 else "mixed")
     return dict(cin=cin, cout=cout, out=out, nontrivial=bool(parsed) and captured is not None and len(captured) > 0, shape=shape,
-                can={"parsed": parsed, "ex": ex, "same": same, "opaque": False})
+                can={"parsed": parsed, "ex": ex, "same": same, "opaque": False, "imps": imps})
 
 
 # ----------------------------------------------------------------------------- canaries
@@ -802,8 +899,9 @@ def canary(h, rec):
     c = rec.get("can")
     if not c or not c["same"] or c["parsed"] is None:
         return []                                   # the decider fails on this case anyway
-    def enc(parsed, same):
-        return "(mkOut %s %s %s)" % (L.opt(parsed, lambda p: L.lst(p, L.e_stmt)), L.opt(c["ex"], lambda e: L.lst(e, L.e_top)), L.b(same))
+    def enc(parsed, same, imps=c.get("imps", [])):
+        return "(mkOut %s %s %s %s)" % (L.opt(parsed, lambda p: L.lst(p, L.e_stmt)), L.opt(c["ex"], lambda e: L.lst(e, L.e_top)), L.b(same),
+                                        L.lst(imps, L.S))
     out = [enc(None, True),                         # the text does not parse
            enc(c["parsed"], False)]                 # the two paths emit different SQL
     if not c["opaque"]:
@@ -812,12 +910,17 @@ def canary(h, rec):
             bad = _on_stmts(list(stmts), f)
             if bad is not None:
                 out.append(enc(bad, True))
+        if c.get("imps"):                           # an import line that the text needs went missing
+            out.append(enc(c["parsed"], True, c["imps"][1:]))
     return out
 
 
 def classify(h, out):
     if h.get("finding"):
         return h["finding"]
+    diff = (out or {}).get("sql_diff", {})
+    if h.get("b") in WRAPPING_KINDS and diff and "postgresql" not in diff and all(v.get("rendered") == "NameError" for v in diff.values()):
+        return "C08-dialect-type-inner-type-unqualified"
     if h.get("b") in ("func_index", "cast_index") and set((out or {}).get("sql_diff", {})) <= {"mysql"}:
         return "C08-mysql-functional-index-parens"
     if h.get("stream") == "B" and any("%" in n for n in h.get("names", [])):
